@@ -20,6 +20,8 @@ func validateStubs(ld *Loaded, cfg *Config) (map[string]int, error) {
 	in.onceDone = map[string]bool{}
 	in.heldMutex = map[string]bool{}
 	in.lastStore = map[string]int{}
+	in.pools = map[string][]Value{}
+	in.readers = map[string]int{}
 	in.pcEq = map[int]uint64{}
 	in.pcNe = map[int][]uint64{}
 	in.inputKinds = map[string]string{}
